@@ -47,6 +47,7 @@ func (r *rng) perm(n int) []int {
 // ---------------------------------------------------------------------------------------------
 
 type TypeSpec struct {
+	CloneOf                 int // index of the type this one is a renamed Clone() of (-1: none)
 	Name, Desc              string
 	Kind                    int // 0 custom, 1 flag, 2 integer, 3 decimal
 	Size                    int
@@ -54,6 +55,7 @@ type TypeSpec struct {
 	Min, Max, Scale, Offset float64
 }
 type UnitSpec struct {
+	CloneOf            int
 	Name, Desc, Symbol string
 	Kind               int
 }
@@ -62,6 +64,7 @@ type EnumValSpec struct {
 	Index      int
 }
 type EnumSpec struct {
+	CloneOf    int
 	Name, Desc string
 	MinSize    int
 	Vals       []EnumValSpec
@@ -132,6 +135,7 @@ type BusSpec struct {
 	Name, Desc string
 	Baud       int
 	Builder    int // -1 default
+	NilBuilder bool // SetCANIDBuilder(nil): back to the default builder
 	Ifs        []*IfSpec
 	Attrs      []AssignSpec
 }
@@ -182,6 +186,8 @@ type genOpts struct {
 	Ties     bool // equal names for types/units/enums/attributes/builders, equal sizes, equal node ids across buses
 	MaxDepth int
 	Buses    int // number of buses (0: 1..3)
+	Clones   bool // renamed Clone()s of types / units / enums, referenced next to their originals
+	CaseTwin bool // names that differ only by case ("Can" / "CAN") for every named kind
 	Special  bool // '|' in names and descriptions, line breaks in strings that only appear in table cells
 	Collide  bool // names that collide after clearSpaces ("a b" / "a_b")
 }
@@ -193,6 +199,7 @@ type gen struct {
 	o       genOpts
 	uniq    int
 	collide string
+	last    map[string]string
 }
 
 func (g *gen) word(min, max int) string {
@@ -229,9 +236,32 @@ func (g *gen) cellDesc() string {
 }
 
 // uname returns a name that is unique in the whole specification.
+func swapCase(s string) string {
+	b := []byte(s)
+	for i, c := range b {
+		switch {
+		case c >= 'a' && c <= 'z':
+			b[i] = c - 32
+		case c >= 'A' && c <= 'Z':
+			b[i] = c + 32
+		}
+	}
+	return string(b)
+}
+
 func (g *gen) uname(prefix string) string {
+	if g.o.CaseTwin && g.last[prefix] != "" && g.r.chance(30) {
+		n := swapCase(g.last[prefix]) // differs from the previous name of this kind only by case
+		g.last[prefix] = ""
+		return n
+	}
 	g.uniq++
-	return fmt.Sprintf("%s%d %s", prefix, g.uniq, g.word(1, 5))
+	n := fmt.Sprintf("%s%d %s", prefix, g.uniq, g.word(1, 5))
+	if g.last == nil {
+		g.last = map[string]string{}
+	}
+	g.last[prefix] = n
+	return n
 }
 
 // pname returns a name from a tiny pool (collisions wanted) when ties are requested.
@@ -278,6 +308,16 @@ func genSpec(r *rng, o genOpts) *Spec {
 		}
 		sp.Types = append(sp.Types, t)
 	}
+	for i := range sp.Types {
+		sp.Types[i].CloneOf = -1
+	}
+	if o.Clones && len(sp.Types) >= 2 && r.chance(70) {
+		k := r.below(len(sp.Types) - 1)
+		c := sp.Types[k]
+		c.CloneOf, c.Name = k, g.uname("tyclone")
+		last := sp.Types[len(sp.Types)-1]
+		sp.Types = append(sp.Types[:len(sp.Types)-1], c, last)
+	}
 	nUnits := 1 + r.below(3)
 	for i := 0; i < nUnits; i++ {
 		u := UnitSpec{Name: g.pname("un"), Desc: g.cellDesc(), Symbol: g.word(1, 3), Kind: r.below(4)}
@@ -288,6 +328,20 @@ func genSpec(r *rng, o genOpts) *Spec {
 			u.Name = ""
 		}
 		sp.Units = append(sp.Units, u)
+	}
+	for i := range sp.Units {
+		sp.Units[i].CloneOf = -1
+	}
+	if o.Clones && r.chance(60) {
+		k := r.below(len(sp.Units))
+		c := sp.Units[k]
+		c.CloneOf, c.Name = k, g.uname("unclone")
+		if n := len(sp.Units); n >= 2 && k < n-1 {
+			last := sp.Units[n-1]
+			sp.Units = append(sp.Units[:n-1], c, last)
+		} else {
+			sp.Units = append(sp.Units, c)
+		}
 	}
 	nEnums := 2 + r.below(3)
 	for i := 0; i < nEnums; i++ {
@@ -305,6 +359,17 @@ func genSpec(r *rng, o genOpts) *Spec {
 			}
 		}
 		sp.Enums = append(sp.Enums, e)
+	}
+	for i := range sp.Enums {
+		sp.Enums[i].CloneOf = -1
+	}
+	if o.Clones && r.chance(70) {
+		k := r.below(len(sp.Enums) - 1)
+		c := sp.Enums[k]
+		c.CloneOf, c.Name = k, g.uname("enclone")
+		c.Vals = append([]EnumValSpec{}, c.Vals...)
+		last := sp.Enums[len(sp.Enums)-1]
+		sp.Enums = append(sp.Enums[:len(sp.Enums)-1], c, last)
 	}
 	// one attribute of every type, plus a few more
 	nAttrs := 5 + r.below(4)
@@ -406,6 +471,7 @@ func genSpec(r *rng, o genOpts) *Spec {
 		if len(sp.Builders) > 0 && r.chance(60) {
 			b.Builder = r.below(len(sp.Builders))
 		}
+		b.NilBuilder = r.chance(35)
 		b.Attrs = g.assigns(sp, 35)
 		usedID := map[uint32]bool{}
 		usedName := map[string]bool{}
@@ -486,9 +552,9 @@ func addDeepChain(sp *Spec, r *rng, levels int) {
 		return
 	}
 	g := &gen{r: r, uniq: 100000 + len(sp.Types)*100}
-	sp.Types = append(sp.Types, TypeSpec{Name: g.uname("deepty"), Kind: 2, Size: 3, Signed: r.chance(50)})
-	sp.Units = append(sp.Units, UnitSpec{Name: g.uname("deepun"), Symbol: []string{"", "m"}[r.below(2)], Kind: r.below(4)})
-	sp.Enums = append(sp.Enums, EnumSpec{Name: g.uname("deepen"), Desc: g.desc(),
+	sp.Types = append(sp.Types, TypeSpec{CloneOf: -1, Name: g.uname("deepty"), Kind: 2, Size: 3, Signed: r.chance(50)})
+	sp.Units = append(sp.Units, UnitSpec{CloneOf: -1, Name: g.uname("deepun"), Symbol: []string{"", "m"}[r.below(2)], Kind: r.below(4)})
+	sp.Enums = append(sp.Enums, EnumSpec{CloneOf: -1, Name: g.uname("deepen"), Desc: g.desc(),
 		Vals: []EnumValSpec{{Name: g.uname("dv"), Index: 0}, {Name: g.uname("dv"), Desc: "dlast", Index: 2 + r.below(2)}}})
 	ti, ui, ei := len(sp.Types)-1, len(sp.Units)-1, len(sp.Enums)-1
 	inner := []ChildSpec{
@@ -776,6 +842,9 @@ func build(sp *Spec, pr *rng) *Built {
 		t := sp.Types[i]
 		var st *a.SignalType
 		var err error
+		if t.CloneOf >= 0 {
+			continue
+		}
 		switch t.Kind {
 		case 0:
 			st, err = a.NewCustomSignalType(t.Name, t.Size, t.Signed, t.Min, t.Max, t.Scale, t.Offset)
@@ -792,15 +861,33 @@ func build(sp *Spec, pr *rng) *Built {
 		}
 		b.Types[i] = st
 	}
+	for _, i := range ord(len(sp.Types)) { // renamed clones, once their originals exist
+		if t := sp.Types[i]; t.CloneOf >= 0 && b.Types[t.CloneOf] != nil {
+			b.Types[i] = b.Types[t.CloneOf].Clone()
+			b.Types[i].SetName(t.Name)
+		}
+	}
 	b.Units = make([]*a.SignalUnit, len(sp.Units))
 	for _, i := range ord(len(sp.Units)) {
 		u := sp.Units[i]
+		if u.CloneOf >= 0 {
+			continue
+		}
 		b.Units[i] = a.NewSignalUnit(u.Name, a.SignalUnitKind(u.Kind), u.Symbol)
 		b.Units[i].SetDesc(u.Desc)
+	}
+	for _, i := range ord(len(sp.Units)) {
+		if u := sp.Units[i]; u.CloneOf >= 0 {
+			b.Units[i] = b.Units[u.CloneOf].Clone()
+			b.Units[i].SetName(u.Name)
+		}
 	}
 	b.Enums = make([]*a.SignalEnum, len(sp.Enums))
 	for _, i := range ord(len(sp.Enums)) {
 		e := sp.Enums[i]
+		if e.CloneOf >= 0 {
+			continue
+		}
 		en := a.NewSignalEnum(e.Name)
 		en.SetDesc(e.Desc)
 		if e.MinSize > 0 {
@@ -812,6 +899,16 @@ func build(sp *Spec, pr *rng) *Built {
 			b.chk("enum value", en.AddValue(v))
 		}
 		b.Enums[i] = en
+	}
+	for _, i := range ord(len(sp.Enums)) {
+		if e := sp.Enums[i]; e.CloneOf >= 0 {
+			en, err := b.Enums[e.CloneOf].Clone()
+			b.chk("enum clone", err)
+			if en != nil {
+				en.UpdateName(e.Name)
+			}
+			b.Enums[i] = en
+		}
 	}
 	b.Attrs = make([]a.Attribute, len(sp.Attrs))
 	for _, i := range ord(len(sp.Attrs)) {
@@ -911,6 +1008,8 @@ func build(sp *Spec, pr *rng) *Built {
 		}
 		if bs.Builder >= 0 {
 			bus.SetCANIDBuilder(b.Builders[bs.Builder])
+		} else if bs.NilBuilder {
+			bus.SetCANIDBuilder(nil) // documented: back to the default builder
 		}
 		assign("bus", bus, bs.Attrs)
 		b.Buses[i] = bus
